@@ -68,6 +68,14 @@ def make_rule(arch, cfg, str_form):
         return r.access_any_layer() if cfg["dir"] == "import" else r.be_accessed_by_any_layer()
     r = getattr(r, ACC[(cfg["dir"], cfg["exc"])])()
     objs = cfg["objects"]
+    if cfg.get("stumble"):
+        # the author first names a layer that is not defined (a typo), next to a defined one that is NOT part of the rule;
+        # the call raises, the typo is corrected and the same rule object is finished: the rejected call left nothing behind
+        try:
+            r.are_named([cfg["stumble"], "no_such_layer_zz"])
+        except Exception:  # noqa: BLE001  (whatever it raises)
+            pass
+        HUB.acc.count("layer_rules_finished_after_a_rejected_are_named")
     return r.are_named(objs[0] if len(objs) == 1 and str_form else list(objs))
 
 
@@ -122,6 +130,13 @@ def _construction(case):
     r = getattr(r, ACC[(cfg["dir"], cfg["exc"])])()
     yield
     objs = cfg["objects"]
+    if cfg.get("stumble"):
+        try:
+            r.are_named([cfg["stumble"], "no_such_layer_zz"])
+        except Exception:  # noqa: BLE001
+            pass
+        HUB.acc.count("layer_rules_finished_after_a_rejected_are_named")
+        yield
     return r.are_named(objs[0] if len(objs) == 1 and str_form else list(objs))
 
 
@@ -298,6 +313,9 @@ def run_shard(spec, acc):
         for name in layers:
             acc.hist("layer_kind", kinds[name])
         cfg = {"verb": verb, "dir": d, "exc": exc, "anything": anything, "subject": subject, "objects": objects}
+        spare = [n for n in layers if n != subject and n not in objects] if not anything else []
+        if spare and rnd.random() < 0.15:
+            cfg["stumble"] = rnd.choice(spare)
         case = {"kind": "layer", "mods": mods, "imps": imps, "layers": layers, "kinds": kinds, "cfg": cfg, "str_form": rnd.random() < 0.5}
         one_case(case, acc)
         if i % 6 == 1:
